@@ -194,7 +194,7 @@ type GridCase struct {
 	Dim    string
 	Val    string
 	Server *tls.Config
-	Plan   *tls.VerifPlan // attached to the server conn (may be nil)
+	Plan   *tls.VerifPlan      // attached to the server conn (may be nil)
 	Client func(c *tls.Config) // extra client configuration (may be nil)
 	// expectations
 	WantVersion uint16 // 0 = don't care
